@@ -450,11 +450,10 @@ func (cs *ContractSet) LoadFile(path, pkgPath string) {
 					eq += 2 + k
 				}
 			}
-			if eq < 0 {
-				bad(fmt.Errorf("spec needs '='"))
-				continue
+			head, body := strings.TrimSpace(ll.rest), ""
+			if eq >= 0 {
+				head, body = strings.TrimSpace(ll.rest[:eq]), strings.TrimSpace(ll.rest[eq+1:])
 			}
-			head, body := strings.TrimSpace(ll.rest[:eq]), strings.TrimSpace(ll.rest[eq+1:])
 			op := strings.Index(head, "(")
 			cp := strings.LastIndex(head, ")")
 			if op < 0 || cp < op {
@@ -463,12 +462,14 @@ func (cs *ContractSet) LoadFile(path, pkgPath string) {
 			}
 			sf := &SpecFn{PkgPath: pkgPath, Name: strings.TrimSpace(head[:op]), Params: parseVars(head[op+1 : cp]),
 				Ret: strings.TrimSpace(head[cp+1:]), Src: body}
-			e, err := ParseCExpr(body)
-			if err != nil {
-				bad(err)
-				continue
+			if body != "" { // no body: uninterpreted
+				e, err := ParseCExpr(body)
+				if err != nil {
+					bad(err)
+					continue
+				}
+				sf.Body = e
 			}
-			sf.Body = e
 			cs.Specs[pkgPath+"#"+sf.Name] = sf
 		case "lemma", "lemma!":
 			// lemma name(params): expr
